@@ -185,7 +185,7 @@ struct Checked {
 /// Calls the real function and the independent reference. A panic inside the real function is an
 /// observation too (it cannot "equal Minecraft's digest").
 fn check_one(t: &Triple) -> Checked {
-    let digest = refcrypto::sha1_concat(&[t.server_id.as_bytes(), &t.secret, &t.key]);
+    let digest = refcrypto::sha1_concat(&[&refcrypto::minecraft_id_bytes(&t.server_id), &t.secret, &t.key]);
     let expected = refcrypto::signed_hex(&digest);
     let observed = match std::panic::catch_unwind(|| minecraft_hash(&t.server_id, &t.secret, &t.key)) {
         Ok(s) => s,
@@ -338,7 +338,7 @@ fn run_chunk(seed: u64, index: u64, n: u64, py_quota: usize) -> ChunkOut {
         }
         // search: remember the deepest case of every rare family (all of them were compared above)
         if c.class.is_rare() {
-            let digest = refcrypto::sha1_concat(&[t.server_id.as_bytes(), &t.secret, &t.key]);
+            let digest = refcrypto::sha1_concat(&[&refcrypto::minecraft_id_bytes(&t.server_id), &t.secret, &t.key]);
             match digest[0] {
                 0x00 => out.ex_pos_zero.offer(run_nibbles(&digest, 0x00), &t, &c.observed),
                 0xff => out.ex_neg_ones.offer(run_nibbles(&digest, 0xff), &t, &c.observed),
@@ -406,7 +406,7 @@ fn run_python(path: &std::path::Path, samples: &[PySample]) -> PyOutcome {
         };
         body.push_str(&format!(
             "{} {} {} {}\n",
-            hex_or_dash(s.triple.server_id.as_bytes()),
+            hex_or_dash(&refcrypto::minecraft_id_bytes(&s.triple.server_id)),
             hex_or_dash(&s.triple.secret),
             hex_or_dash(&s.triple.key),
             obs
@@ -729,7 +729,7 @@ fn main() {
     let mut search = vec![];
     for ((title, measure), e) in fam.iter().zip(ex.iter()) {
         if let Some(t) = &e.triple {
-            let digest = refcrypto::sha1_concat(&[t.server_id.as_bytes(), &t.secret, &t.key]);
+            let digest = refcrypto::sha1_concat(&[&refcrypto::minecraft_id_bytes(&t.server_id), &t.secret, &t.key]);
             search.push(json!({"family": title, *measure: e.score, "digest": hex(&digest), "observed": e.observed, "input": triple_json(t)}));
         }
     }
